@@ -23,6 +23,77 @@ def nontrivial(ops, obs):
     return feature
 
 
+
+def service_part(ck):
+    """The same mailbox rule one layer up: scheduling rounds go to the DB through the real Drummer.updateRequests (drummer.go) and are
+    picked up through the real server.ReportAvailableNodeHost, on a real single-replica NodeHost (executor and monitors of C17).  Rounds
+    are LARGE here - a launch round for 40..90 shards (120..450 requests, several hundred bytes each) and later rounds of up to 300
+    requests for up to 6 NodeHosts - so that anything between the scheduler and the DB that bounds, splits, batches or re-orders a round
+    is exercised: every NodeHost's next report must be answered with exactly its share of the round, in order, once."""
+    import c17
+    import dbgen as G
+    binp = ck.go_test_bin("", ["root/zz_verif_db_test.go", "root/zz_verif_service_test.go"], name="svcexec")
+    if binp is None:
+        return
+    rng = ck.rng
+    cases = []
+    for i in range(6 if ck.tier == "quick" else 60):
+        w = G.World(rng, nhosts=rng.randint(3, 6), nshards=rng.choice([40, 43, 64, 90] if i % 2 == 0 else [2, 3, 50]))
+        ops = [("T",)]
+        launch = w.launch_batch()
+        order = rng.choice(["by-shard", "by-host", "shuffled"])
+        if order == "by-host":
+            launch.sort(key=lambda q: q["raft"])
+        elif order == "shuffled":
+            rng.shuffle(launch)
+        ops.append(("Q", launch))
+        hosts = list(w.hosts)
+        rng.shuffle(hosts)
+        for a in hosts:
+            ops += [("RP", c17.safe_report(w, a, rng))]
+        for a in hosts[:2]:
+            ops += [("RP", c17.safe_report(w, a, rng))]            # second report: nothing left
+        for _ in range(rng.randint(2, 4)):                          # later large rounds (repair-style requests), some superseded before pickup
+            n = rng.choice([1, 7, 127, 128, 129, 200, 300])
+            qs = [w.random_request() for _ in range(n)]
+            ops.append(("Q", qs))
+            if rng.random() < 0.3:
+                ops.append(("Q", [w.random_request() for _ in range(rng.choice([1, 129]))]))
+            rng.shuffle(hosts)
+            for a in hosts:
+                ops += [("RP", c17.safe_report(w, a, rng))]
+            ops.append(("T",))
+        cases.append(("big%d" % i, ops, "mem"))
+    res, params, fail = c17.run_exec(ck, binp, cases, "c10svc")
+    if res is None:
+        ck.violation("service executor failed to run", {"kind": "executor", "rc": fail[0], "log_tail": fail[1]}, found_input=False)
+        return
+    bad_infra = [c for c in cases if not (res.get(c[0]) and res[c[0]][1] == "ok")]
+    if bad_infra:
+        res2, _, _f = c17.run_exec(ck, binp, bad_infra, "c10svc2")
+        for c in bad_infra:
+            if res2 and res2.get(c[0]):
+                res[c[0]] = res2[c[0]]
+    c17.TTL[0] = params[0]
+    stats = {"calls": 0, "malformed": 0, "reports": 0, "reports_with_requests": 0, "restarts": 0, "died": 0}
+    nv = 0
+    biggest = 0
+    for (name, ops, mode) in cases:
+        if not (res.get(name) and res[name][1] == "ok"):
+            continue                       # infrastructure (twice): not judged here, C17 owns the executor
+        ans = res[name][0]
+        biggest = max([biggest] + [len(op[1]) for op in ops if op[0] == "Q"])
+        for (mon, what, i) in c17.monitor_case(name, ops, ans, stats):
+            if nv < 3:
+                nv += 1
+                ck.violation("service level (Drummer.updateRequests -> DB -> ReportAvailableNodeHost): " + what, c17.replay_of(name, ops, ans, i, mode))
+        for i, op in enumerate(ops):
+            if i in ans and op[0] in ("Q", "RP"):
+                ck.count_case("svc %s %s" % (c17.op_line(op)[:200], ans[i][0][:80]))
+    ck.cov["service_part"] = {"sequences": len(cases), "calls": stats["calls"], "reports_with_requests": stats["reports_with_requests"],
+                              "largest_round": biggest}
+
+
 def run(ck):
     ck.cov["rule"] = ("PRNG traces (mailbox profile): scheduling rounds with batches for arbitrary subsets of 1..6 addresses (incl. empty batches, an "
                       "address that never reports, launch-looking batches after launch), interleaved with reports, ticks and REQUESTS lookups by the "
@@ -44,3 +115,4 @@ def run(ck):
     traces = traces[:ncorp] + [dbgen.with_lag(ck.rng, t, 0.4) for t in traces[ncorp:]]    # a follower catching up by snapshot must serve the same mailboxes
     dbprops.run_db_property(ck, eng, traces, [dbprops.mon_c10], with_replicas=False, nontrivial=nontrivial)
     ck.sample({"trace": dbengine.trace_to_json(traces[3][:10])})
+    service_part(ck)
